@@ -6,9 +6,7 @@ import (
 	"fmt"
 	"io"
 	"os"
-	"os/exec"
 	"reflect"
-	"runtime/debug"
 	"sort"
 	"strconv"
 	"strings"
@@ -517,7 +515,7 @@ func execChild(args []string) {
 	if err := json.Unmarshal(lines[0], &c); err != nil || c.O == nil {
 		panic(fmt.Sprint("execchild: bad case ", err))
 	}
-	debug.SetMaxStack(32 << 20) // unbounded recursion ends this child quickly
+	childInit()
 	warmUp()
 	if args[0] == "all" || strings.HasPrefix(args[0], "skip:") {
 		// skip:<names>: encoders that killed the process under an earlier option mask of the same case are not called
@@ -548,29 +546,23 @@ func execChild(args []string) {
 	os.Stdout.Write(mustJSON(childOut{Raw: raw, T: t, R: r, M: m}))
 }
 
-func spawn(arg string, line []byte) (out []byte, died string) {
-	self, _ := os.Executable()
-	cmd := exec.Command(self, "execchild", arg)
-	cmd.Stdin = bytes.NewReader(line)
-	var ob, eb bytes.Buffer
-	cmd.Stdout, cmd.Stderr = &ob, &eb
-	if err := cmd.Start(); err != nil {
-		fmt.Fprintln(os.Stderr, "execchild does not start:", err)
-		os.Exit(2)
-	}
-	done := make(chan error, 1)
-	go func() { done <- cmd.Wait() }()
-	select {
-	case err := <-done:
-		if err != nil || ob.Len() == 0 {
-			return nil, "fatal: the process died: " + trunc(fatalLine(eb.String()))
+// spawn runs one execchild. The whole-case child ("all", "skip:...") gets a single stage: if it fails every encoder is run
+// in a child of its own, and those runs get the two-stage verdict of iso.go (key: encoder + recursive kinds).
+func spawn(arg string, line []byte, key string) (out []byte, died string) {
+	if key == "" {
+		isoMu.RLock()
+		r := runOnce([]string{"execchild", arg}, line, shortLimit(5*time.Second, 25), true)
+		isoMu.RUnlock()
+		if r.failed {
+			return nil, "no result from the whole-case child"
 		}
-	case <-time.After(5 * time.Second):
-		_ = cmd.Process.Kill()
-		<-done
-		return nil, "fatal: no return within 5s"
+		return r.out, ""
 	}
-	return ob.Bytes(), ""
+	res := runChild([]string{"execchild", arg}, line, 5*time.Second, 25, key)
+	if res.verdict != nil {
+		return nil, "fatal: " + res.verdict.msg
+	}
+	return res.out, ""
 }
 
 func fatalLine(s string) string {
@@ -599,7 +591,7 @@ func runIsolated(c *caseSpec, o optSpec, dead map[string]string) (event, map[str
 		sort.Strings(kv)
 		arg = "skip:" + strings.Join(kv, ";")
 	}
-	if out, died := spawn(arg, line); died == "" {
+	if out, died := spawn(arg, line, ""); died == "" {
 		var co childOut
 		if err := json.Unmarshal(out, &co); err == nil && co.Ev != nil {
 			co.Ev.Case = cc
@@ -611,7 +603,7 @@ func runIsolated(c *caseSpec, o optSpec, dead map[string]string) (event, map[str
 		idx[e.name] = i
 	}
 	return runCaseWith(c, o, func(e encoder, x, px any, opt *ojg.Options) (string, tree, string, string) {
-		out, died := spawn(strconv.Itoa(idx[e.name]), line)
+		out, died := spawn(strconv.Itoa(idx[e.name]), line, e.name+"|"+isolatedKinds(c))
 		if died != "" {
 			dead[e.name] = died // remembered for the remaining option masks of this case
 			return "", leaf("none", ""), "fail", died
